@@ -3,7 +3,9 @@
            Validate(src), then (only if it accepted) Merge(dst, src) — observed: code, new dst, what
            became of src (Merge filters it in place), or a panic.
    KSet:   resource.NewValue(WithInitialValue stored, WithWritableFields resw).Set(written,
-           WithUpdateMask um, WithResetMask rm, WithMoreWritableFields more, WithAllFieldsWritable) —
+           WithUpdateMask um, WithMoreUpdateMask moreu, WithResetMask rm, WithMoreWritableFields more,
+           WithAllFieldsWritable) — (more / moreu = None when the option is not used; moreu is always built
+           valid) —
            observed: code, returned message, the next Get.
    mtag / rtag: how the generator built the update / reset mask from the Go descriptor (0 = every path
    valid by construction, k > 0 = one path corrupted in way k). *)
@@ -14,7 +16,7 @@ Inductive sobs := SRet (ret : option value) (next : value) | SPanic.
 
 Inductive c05case :=
 | KMerge (ty : string) (um wm rm : mask) (mtag rtag : Z) (dst src : value) (code : Z) (obs : option mres)
-| KSet (ty : string) (allw : bool) (resw more um rm : mask) (mtag rtag : Z)
+| KSet (ty : string) (allw : bool) (resw more um moreu rm : mask) (mtag rtag : Z)
        (stored written : value) (code : Z) (obs : sobs).
 
 Definition mres_equiv (a b : mres) : bool :=
@@ -34,8 +36,8 @@ Definition agrees (c : c05case) : bool :=
       | None => negb (code =? code_ok)
       | Some o => (code =? code_ok) && mres_equiv o (merge the_schema ty um wm rm dst src)
       end
-  | KSet ty allw resw more um rm _ _ stored written code obs =>
-      match write the_schema ty allw resw more um rm stored written, obs with
+  | KSet ty allw resw more um moreu rm _ _ stored written code obs =>
+      match write the_schema ty allw resw more (effective_update um moreu) rm stored written, obs with
       | WErr c, SRet None next => (code =? c) && veq next stored
       | WOk d, SRet (Some r) next => (code =? code_ok) && veq r d && veq next d
       | WPanic, SPanic => true
@@ -136,6 +138,10 @@ Definition write_ok (sch : schema) (ty : string) (um weff rm : mask) (pre w post
       && forallb (fun r => match get_at r post with None => true | Some _ => false end) rs
   end.
 
+(* nil update mask means all writable fields, with or without extra update paths *)
+Definition spec_update (um moreu : mask) : mask :=
+  match um with None => None | Some ps => Some (ps ++ mask_paths moreu) end.
+
 Definition spec_union (allw : bool) (resw more : mask) : mask :=
   if allw then None else
   match resw with None => None | Some w => Some (w ++ mask_paths more) end.
@@ -164,8 +170,9 @@ Definition C05_ok (c : c05case) : bool :=
       | Some MPanic => false
       | Some (MOk d' _) => write_ok the_schema ty um wm rm dst src d'
       end
-  | KSet ty allw resw more um rm mtag rtag stored written code obs =>
+  | KSet ty allw resw more um0 moreu rm mtag rtag stored written code obs =>
       let weff := spec_union allw resw more in
+      let um := spec_update um0 moreu in
       (code =? expected_code um weff mtag rtag rm) &&
       match obs with
       | SPanic => false
@@ -181,9 +188,9 @@ Definition C05_guard (c : c05case) : bool :=
   match c with
   | KMerge ty um wm rm _ _ dst src _ _ =>
       conforms the_schema ty dst && conforms the_schema ty src && valid_or the_schema ty wm
-  | KSet ty allw resw more um rm _ _ stored written _ _ =>
+  | KSet ty allw resw more um moreu rm _ _ stored written _ _ =>
       conforms the_schema ty stored && conforms the_schema ty written
-      && valid_or the_schema ty resw && valid_or the_schema ty more
+      && valid_or the_schema ty resw && valid_or the_schema ty more && valid_or the_schema ty moreu
   end.
 
 Definition judge (c : c05case) : Z :=
